@@ -168,6 +168,22 @@ template<> struct EvalT<float> {
   static bool isnan(float a) { return std::isnan(a); } static bool isinf(float a) { return std::isinf(a); }
   static float ibin(Op, float, float) { throw fki::TraceFail{"integer node in a float unit"}; }
 };
+template<> struct EvalT<double> {
+  static double lit(Node const& n) { return n.d; }
+  static double konst(Node const& n) { switch (n.sub) { case K_EPS: return DBL_EPSILON; case K_FMIN: return DBL_MIN; case K_FMAX: return DBL_MAX; default: return INFINITY; } }
+  static double bin(Op op, double a, double b) { volatile double x = a, y = b; switch (op) { case ADD: return x + y; case SUB: return x - y; case MUL: return x * y; default: return x / y; } }
+  static double neg(double a) { return -a; }
+  static double call1(uint8_t f, double a) {
+    switch (f) { case F_SQRT: return std::sqrt(a); case F_SIN: return std::sin(a); case F_COS: return std::cos(a); case F_TAN: return std::tan(a); case F_ASIN: return std::asin(a); case F_ACOS: return std::acos(a);
+      case F_ATAN: return std::atan(a); case F_SINH: return std::sinh(a); case F_COSH: return std::cosh(a); case F_TANH: return std::tanh(a); case F_ASINH: return std::asinh(a); case F_ACOSH: return std::acosh(a);
+      case F_ATANH: return std::atanh(a); case F_EXP: return std::exp(a); case F_LOG: return std::log(a); case F_EXP2: return std::exp2(a); case F_LOG2: return std::log2(a); case F_FLOOR: return std::floor(a);
+      case F_CEIL: return std::ceil(a); case F_TRUNC: return std::trunc(a); case F_ROUND: return std::round(a); default: return std::fabs(a); } }
+  static double call2(uint8_t f, double a, double b) { return f == F_ATAN2 ? std::atan2(a, b) : f == F_POW ? std::pow(a, b) : std::fmod(a, b); }
+  static double call3(double a, double b, double c) { return std::fma(a, b, c); }
+  static bool lt(double a, double b) { return a < b; } static bool le(double a, double b) { return a <= b; } static bool eq(double a, double b) { return a == b; }
+  static bool isnan(double a) { return std::isnan(a); } static bool isinf(double a) { return std::isinf(a); }
+  static double ibin(Op, double, double) { throw fki::TraceFail{"integer node in a double unit"}; }
+};
 template<class T> struct EvalInt {
   static T lit(Node const& n) { return (T)(uint32_t)n.i; }
   static T konst(Node const&) { throw fki::TraceFail{"konst in an integer unit"}; }
@@ -184,7 +200,7 @@ template<> struct EvalT<uint32_t> : EvalInt<uint32_t> {};
 
 template<class T> struct Evaluator {
   std::vector<Node> const& N; T const* in; std::map<uint32_t, T> memo; std::set<uint32_t> const* sign_conds;
-  static bool sbit(float v) { return std::signbit(v); } static bool sbit(int32_t v) { return v < 0; } static bool sbit(uint32_t) { return false; }
+  static bool sbit(float v) { return std::signbit(v); } static bool sbit(double v) { return std::signbit(v); } static bool sbit(int32_t v) { return v < 0; } static bool sbit(uint32_t) { return false; }
   T e(uint32_t id) {
     auto it = memo.find(id); if (it != memo.end()) return it->second;
     Node const& n = N[id]; T r; using E = EvalT<T>;
@@ -215,15 +231,15 @@ template<class T> struct Evaluator {
     }
   }
 };
-template<class T> static bool eval_unit(Snap const& sn, std::vector<uint32_t> const& inb, std::vector<uint32_t>& outb) {
-  std::vector<T> in(inb.size()); for (size_t i = 0; i < inb.size(); ++i) std::memcpy(&in[i], &inb[i], 4);
+template<class T> static bool eval_unit(Snap const& sn, std::vector<uint64_t> const& inb, std::vector<uint64_t>& outb) {
+  std::vector<T> in(inb.size()); for (size_t i = 0; i < inb.size(); ++i) std::memcpy(&in[i], &inb[i], sizeof(T));
   Evaluator<T> ev{sn.nodes, in.data(), {}, &sn.sign_conds};
   for (auto const& p : sn.tr.paths) {
     bool okp = true;
     for (auto const& t : p.trail) if (ev.c(t.first) != t.second) { okp = false; break; }
     if (!okp) continue;
     outb.resize(p.outs.size());
-    for (size_t j = 0; j < p.outs.size(); ++j) { T v = ev.e(p.outs[j]); std::memcpy(&outb[j], &v, 4); }
+    for (size_t j = 0; j < p.outs.size(); ++j) { T v = ev.e(p.outs[j]); outb[j] = 0; std::memcpy(&outb[j], &v, sizeof(T)); }
     return true;
   }
   return false;
@@ -252,31 +268,32 @@ static int evalcheck(const char* build, FILE* fp) {
     }
     Snap const& sn = it->second; units_seen.insert(un);
     if (!sn.tr.ok) { ++skipped; units_x.insert(un); continue; }
-    std::vector<uint32_t> inb, exp, got; size_t k = 1;
-    for (; k < tok.size() && tok[k] != "->"; ++k) inb.push_back((uint32_t)strtoull(tok[k].c_str(), 0, 10));
-    for (++k; k < tok.size(); ++k) exp.push_back((uint32_t)strtoull(tok[k].c_str(), 0, 10));
+    std::vector<uint64_t> inb, exp, got; size_t k = 1;
+    for (; k < tok.size() && tok[k] != "->"; ++k) inb.push_back(strtoull(tok[k].c_str(), 0, 10));
+    for (++k; k < tok.size(); ++k) exp.push_back(strtoull(tok[k].c_str(), 0, 10));
     if ((int)inb.size() != sn.tr.nin || (int)exp.size() != sn.tr.nout) { ++bad; if (shown++ < 30) printf("EVAL-ARITY %s\n", un.c_str()); continue; }
     bool found;
-    try { found = sn.tr.ty == T_R ? eval_unit<float>(sn, inb, got) : sn.tr.ty == T_I32 ? eval_unit<int32_t>(sn, inb, got) : eval_unit<uint32_t>(sn, inb, got); }
+    try { found = sn.is_double ? eval_unit<double>(sn, inb, got) : sn.tr.ty == T_R ? eval_unit<float>(sn, inb, got) : sn.tr.ty == T_I32 ? eval_unit<int32_t>(sn, inb, got) : eval_unit<uint32_t>(sn, inb, got); }
     catch (fki::TraceFail const& e) { ++bad; if (shown++ < 30) printf("EVAL-ERROR %s %s\n", un.c_str(), e.msg.c_str()); continue; }
     if (!found) { ++nopath; ++bad; if (shown++ < 30) printf("EVAL-NOPATH %s\n", un.c_str()); continue; }
     bool approx = false; for (auto const& n : sn.notes) if (n.compare(0, 6, "approx") == 0) approx = true;
     if (approx) {       // rcpps/rsqrtps are only specified (and modelled) on normal numbers well inside the range
       bool in_range = true;
-      for (uint32_t b : inb) { float f; std::memcpy(&f, &b, 4); if (!(f == 0 || (std::fabs(f) >= 0x1p-40f && std::fabs(f) <= 0x1p40f))) in_range = false; }
+      for (uint64_t b : inb) { float f; std::memcpy(&f, &b, 4); if (!(f == 0 || (std::fabs(f) >= 0x1p-40f && std::fabs(f) <= 0x1p40f))) in_range = false; }
       if (!in_range) { ++approx_oor; continue; }
     }
     bool good = true; double scale = 0;
-    if (approx) for (uint32_t b : exp) { float f; std::memcpy(&f, &b, 4); if (std::isfinite(f)) scale = std::max(scale, (double)std::fabs(f)); }
+    if (approx) for (uint64_t b : exp) { float f; std::memcpy(&f, &b, 4); if (std::isfinite(f)) scale = std::max(scale, (double)std::fabs(f)); }
     for (size_t j = 0; j < exp.size() && good; ++j) {
       if (exp[j] == got[j]) continue;
       if (sn.tr.ty != T_R) { good = false; break; }
+      if (sn.is_double) { double a, b; std::memcpy(&a, &exp[j], 8); std::memcpy(&b, &got[j], 8); if (std::isnan(a) && std::isnan(b)) continue; good = false; break; }
       float a, b; std::memcpy(&a, &exp[j], 4); std::memcpy(&b, &got[j], 4);
       if (std::isnan(a) && std::isnan(b)) continue;
       if (approx && std::isfinite(a) && std::isfinite(b) && std::fabs((double)a - b) <= scale / 512.0) continue;
       good = false;
     }
-    if (good) ++ok; else { ++bad; ++per_unit_bad[un]; if (shown++ < 30) { printf("EVAL-MISMATCH %s in", un.c_str()); for (uint32_t b : inb) printf(" %u", b); printf(" hw"); for (uint32_t b : exp) printf(" %u", b); printf(" tree"); for (uint32_t b : got) printf(" %u", b); printf("\n"); } }
+    if (good) ++ok; else { ++bad; ++per_unit_bad[un]; if (shown++ < 30) { printf("EVAL-MISMATCH %s in", un.c_str()); for (uint64_t b : inb) printf(" %llu", (unsigned long long)b); printf(" hw"); for (uint64_t b : exp) printf(" %llu", (unsigned long long)b); printf(" tree"); for (uint64_t b : got) printf(" %llu", (unsigned long long)b); printf("\n"); } }
   }
   for (auto const& kv : per_unit_bad) printf("EVAL-UNIT-MISMATCHES %s %ld\n", kv.first.c_str(), kv.second);
   for (auto const& u : units_x) printf("EVAL-SKIPPED-X-UNIT %s\n", u.c_str());
